@@ -1,4 +1,6 @@
 """C13 — deterministic compilation across processes (hash-order / entropy taint)."""
+CANON = True
+
 import ast
 
 from .. import detflow
